@@ -158,8 +158,12 @@ def oracle(run: runner.Run, oc: Outcome) -> None:
                         # (the state of the object on the server when the step ended, not the possibly older view of it)
                         after_ = next((t_.after for t_ in reversed(run.transitions)
                                        if t_.uid == uid and t_.after is not None and s_.t1 is not None and t_.t <= s_.t1), None)
-                        if after_ is not None and not st.records(after_) and not any(c.hkind in common.CHANGE_KINDS and
-                                                                                     c.outcome is None for c in s_.calls):
+                        # (over = a cycle was closed: the handled state was written, or the step found nothing to do /
+                        # finished the resuming itself; a step that merely adds the finalizer closes nothing)
+                        closed_ = any(w_.after is not None and st.last_handled(w_.after) != st.last_handled(w_.before)
+                                      for w_ in s_.writes) or s_.reason in ('resume', 'noop')
+                        if after_ is not None and closed_ and not st.records(after_) \
+                                and not any(c.hkind in common.CHANGE_KINDS and c.outcome is None for c in s_.calls):
                             phase_over = s_
                             continue
                     if phase_over is not None and any(c.hid == hid for c in s_.calls) \
